@@ -25,8 +25,19 @@ type cliRun struct {
 	Jitter string `json:",omitempty"` // VERIF_JITTER value ("" = none)
 }
 
+// prevRun is the first step of a two-step history: obiclean was run once on
+// Recs with these options; every record of the case proper that has the
+// identifier of a record of that output inherits its obiclean_* annotations.
+type prevRun struct {
+	Recs   []rec
+	Dist   int
+	Ratio  float64
+	MaxCPU int
+}
+
 type cliCase struct {
 	Recs      []rec
+	Prev      *prevRun `json:",omitempty"`
 	Dist      int
 	Ratio     float64
 	BatchSize int      `json:",omitempty"` // --batch-size of every run (0: default)
@@ -39,7 +50,11 @@ type cliCase struct {
 func fastaOf(recs []rec) []byte {
 	var b bytes.Buffer
 	for _, r := range recs {
-		ann := map[string]any{"count": r.total()}
+		ann := map[string]any{}
+		for k, v := range r.Stale {
+			ann[k] = v
+		}
+		ann["count"] = r.total()
 		if r.Plain {
 			for _, k := range sortedKeys(r.Counts) {
 				if k != "NA" {
@@ -326,18 +341,82 @@ func checkCLIModel(c cliCase, out map[string]outRec, model graphModel) error {
 
 func checkCLI(c cliCase) error { return checkCLIWith(c, quadratic(levOne)) }
 
+// staleOf rebuilds the obiclean annotations of an output record.
+func staleOf(o outRec) map[string]any {
+	m := map[string]any{"obiclean_status": o.Status, "obiclean_weight": o.Weight, "obiclean_head": o.Head,
+		"obiclean_headcount": o.HeadCount, "obiclean_internalcount": o.Internal,
+		"obiclean_singletoncount": o.Singleton, "obiclean_samplecount": o.Samples}
+	if len(o.Mutation) > 0 {
+		m["obiclean_mutation"] = o.Mutation
+	}
+	return m
+}
+
+func writeFasta(recs []rec) (string, error) {
+	f, err := os.CreateTemp(run.WorkDir(), "c13-*.fasta")
+	if err != nil {
+		return "", err
+	}
+	defer f.Close()
+	if _, err := f.Write(fastaOf(recs)); err != nil {
+		return "", err
+	}
+	return f.Name(), nil
+}
+
+// withHistory runs the first step of a two-step history and returns the records
+// of the case carrying the annotations that step wrote.
+func withHistory(c cliCase) ([]rec, error) {
+	if c.Prev == nil {
+		return c.Recs, nil
+	}
+	file, err := writeFasta(c.Prev.Recs)
+	if err != nil {
+		return nil, err
+	}
+	defer os.Remove(file)
+	p := cliCase{Recs: c.Prev.Recs, Dist: c.Prev.Dist, Ratio: c.Prev.Ratio, TimeoutS: c.TimeoutS}
+	out, desc, err := runClean(p, cliRun{MaxCPU: c.Prev.MaxCPU}, file, false)
+	if err != nil {
+		if err == errInconclusive {
+			return nil, err
+		}
+		return nil, fmt.Errorf("first step of the history: %v", err)
+	}
+	if len(out) != len(c.Prev.Recs) {
+		return nil, fmt.Errorf("first step of the history: %s: %d records written for %d records read", desc, len(out), len(c.Prev.Recs))
+	}
+	recs := append([]rec(nil), c.Recs...)
+	for i, r := range recs {
+		if o, ok := out[r.Id]; ok {
+			recs[i].Stale = staleOf(o)
+		}
+	}
+	return recs, nil
+}
+
 func checkCLIWith(c cliCase, model graphModel) error {
 	if !run.Have("obiclean") {
 		return fmt.Errorf("the obiclean command was not built")
 	}
-	f, err := os.CreateTemp(run.WorkDir(), "c13-*.fasta")
+	hrecs, err := withHistory(c)
+	if err == errInconclusive {
+		evid.Class("timeout_inconclusive", 1)
+		return nil
+	}
 	if err != nil {
 		return err
 	}
-	file := f.Name()
+	c.Recs = hrecs
+	file, err := writeFasta(c.Recs)
+	if err != nil {
+		return err
+	}
 	defer os.Remove(file)
-	f.Write(fastaOf(c.Recs))
-	f.Close()
+	stale := false
+	for _, r := range c.Recs {
+		stale = stale || len(r.Stale) > 0
+	}
 
 	byId := map[string]rec{}
 	for _, r := range c.Recs {
@@ -368,6 +447,34 @@ func checkCLIWith(c cliCase, model graphModel) error {
 		}
 		if k == 0 {
 			base, baseDesc = out, desc
+			if stale {
+				// the annotations of a previous run are results, not inputs: the same file
+				// without them gives the same output
+				clean := append([]rec(nil), c.Recs...)
+				for i := range clean {
+					clean[i].Stale = nil
+				}
+				cfile, err := writeFasta(clean)
+				if err != nil {
+					return err
+				}
+				defer os.Remove(cfile)
+				cout, cdesc, err := runClean(c, r, cfile, false)
+				if err == errInconclusive {
+					evid.Class("timeout_inconclusive", 1)
+					return nil
+				}
+				if err != nil {
+					return err
+				}
+				for _, rc := range c.Recs {
+					if cout[rc.Id].Canon != base[rc.Id].Canon {
+						st, _ := json.Marshal(rc.Stale)
+						return fmt.Errorf("record %s: the obiclean annotations the input file already carried (on this record: %s) change the result of %s:\n  input with these annotations   : %s\n  same input without them (%s): %s",
+							rc.Id, st, baseDesc, base[rc.Id].Canon, cdesc, cout[rc.Id].Canon)
+					}
+				}
+			}
 			if c.Dist == 1 && c.Ratio == 1.0 {
 				if err := checkCLIModel(c, out, model); err != nil {
 					return fmt.Errorf("%s: %v", desc, err)
@@ -423,7 +530,27 @@ func TestPropCLI(t *testing.T) {
 		} else {
 			recs, cl = genDataset(rt, evid.Pick(40, 60))
 		}
-		c := cliCase{Recs: recs,
+		// history of the file: fresh from obiuniq, annotated by an earlier obiclean run on an
+		// earlier state of the data set (two steps), or carrying arbitrary obiclean_* annotations
+		history := "none"
+		if !big {
+			history = rapid.SampledFrom([]string{"none", "none", "two_step", "stale"}).Draw(rt, "history")
+		}
+		var prev *prevRun
+		switch history {
+		case "two_step":
+			prev = &prevRun{Recs: recs,
+				Dist:   rapid.SampledFrom([]int{1, 1, 2}).Draw(rt, "prev_distance"),
+				Ratio:  rapid.SampledFrom([]float64{1, 1, 0.5}).Draw(rt, "prev_ratio"),
+				MaxCPU: rapid.SampledFrom([]int{2, 4}).Draw(rt, "prev_maxcpu")}
+			var hcl []string
+			recs, hcl = genSecondStep(rt, recs)
+			cl = append(cl, hcl...)
+		case "stale":
+			recs = genStale(rt, recs)
+		}
+		cl = append(cl, "cli:history:"+history)
+		c := cliCase{Recs: recs, Prev: prev,
 			Dist:      rapid.SampledFrom([]int{1, 1, 2, 3}).Draw(rt, "distance"),
 			Ratio:     rapid.SampledFrom([]float64{1, 1, 0.5, 0.1}).Draw(rt, "ratio"),
 			BatchSize: rapid.SampledFrom([]int{0, 0, 1, 7, 50}).Draw(rt, "batchsize")}
@@ -450,11 +577,141 @@ func TestPropCLI(t *testing.T) {
 		if internal {
 			cl = append(cl, "cli:nontrivial")
 		}
-		evid.Eval("cli", evid.Hash(hashRecs(recs), c.Dist, c.Ratio, c.BatchSize, fmt.Sprint(c.Runs)), internal,
-			map[string]any{"records": len(recs), "distance": c.Dist, "ratio": c.Ratio, "batch_size": c.BatchSize, "runs": c.Runs, "first_record": recs[0]}, cl...)
+		hkey := uint64(0)
+		if prev != nil {
+			hkey = evid.Hash(hashRecs(prev.Recs), prev.Dist, prev.Ratio)
+		}
+		for _, r := range recs {
+			if len(r.Stale) > 0 {
+				j, _ := json.Marshal(r.Stale)
+				hkey = evid.Hash(hkey, r.Id, string(j))
+			}
+		}
+		evid.Eval("cli", evid.Hash(hashRecs(recs), c.Dist, c.Ratio, c.BatchSize, fmt.Sprint(c.Runs), hkey), internal,
+			map[string]any{"records": len(recs), "distance": c.Dist, "ratio": c.Ratio, "batch_size": c.BatchSize, "runs": c.Runs, "first_record": recs[0], "history": history}, cl...)
 		evid.Class("cli_runs", int64(len(c.Runs)+1))
+		switch history {
+		case "stale": // the run on the file without annotations
+			evid.Class("cli_runs", 1)
+		case "two_step": // the same, and the first step
+			evid.Class("cli_runs", 2)
+		}
 		if err := checkCLI(c); err != nil {
 			evid.Fail(rt, "cli", c, err)
 		}
 	})
+}
+
+// ------------------------------------------------------------------ files that already went through obiclean
+
+var staleSampleNames = []string{"A", "B", "15a_F730814", "d-4", "NA", "Z9", "old sample"}
+
+// genStale gives arbitrary (well-typed) obiclean_* annotations to about half of
+// the records: statuses and weights for samples the record belongs to or not,
+// mutations naming records of the data set or records that do not exist.
+func genStale(t *rapid.T, recs []rec) []rec {
+	out := append([]rec(nil), recs...)
+	some := false
+	for i := range out {
+		if i == len(out)-1 && !some || rapid.Bool().Draw(t, "stale") {
+			some = true
+			st := map[string]any{}
+			status, weight := map[string]string{}, map[string]int{}
+			keys := sortedKeys(out[i].Counts)
+			for k := rapid.IntRange(0, 2).Draw(t, "foreign_samples"); k > 0; k-- {
+				keys = append(keys, rapid.SampledFrom(staleSampleNames).Draw(t, "foreign"))
+			}
+			for _, k := range keys {
+				if rapid.IntRange(0, 3).Draw(t, "skip") == 0 {
+					continue
+				}
+				status[k] = rapid.SampledFrom([]string{"h", "i", "s"}).Draw(t, "status")
+				weight[k] = rapid.SampledFrom([]int{1, 2, 7, 1000, 123456}).Draw(t, "weight")
+			}
+			mut := map[string]string{}
+			for k := rapid.IntRange(0, 2).Draw(t, "nmut"); k > 0; k-- {
+				id := "ghost"
+				if rapid.Bool().Draw(t, "real_father") {
+					id = recs[rapid.IntRange(0, len(recs)-1).Draw(t, "father")].Id
+				}
+				mut[id] = fmt.Sprintf("(%c)->(%c)@%d", "acgt-"[rapid.IntRange(0, 4).Draw(t, "from")], "acgt"[rapid.IntRange(0, 3).Draw(t, "to")], rapid.IntRange(1, 40).Draw(t, "pos"))
+			}
+			all := map[string]any{"obiclean_status": status, "obiclean_weight": weight, "obiclean_mutation": mut,
+				"obiclean_head":           rapid.Bool().Draw(t, "head"),
+				"obiclean_headcount":      rapid.IntRange(0, 3).Draw(t, "hc"),
+				"obiclean_internalcount":  rapid.IntRange(0, 3).Draw(t, "ic"),
+				"obiclean_singletoncount": rapid.IntRange(0, 3).Draw(t, "sc"),
+				"obiclean_samplecount":    rapid.IntRange(0, 5).Draw(t, "nc")}
+			for _, k := range sortedKeys(all) {
+				if rapid.IntRange(0, 3).Draw(t, "keep_key") != 0 {
+					st[k] = all[k]
+				}
+			}
+			if len(st) == 0 {
+				st["obiclean_status"] = status
+			}
+			out[i].Stale = st
+		}
+	}
+	return out
+}
+
+// genSecondStep derives the second state of a data set from the first one:
+// abundances change (ranks get inverted), records disappear, samples are added
+// to or removed from a record, new variants appear.
+func genSecondStep(t *rapid.T, recs []rec) ([]rec, []string) {
+	classes := map[string]bool{}
+	seen := map[string]bool{}
+	for _, r := range recs {
+		seen[r.Seq] = true
+	}
+	var out []rec
+	for _, r := range recs {
+		n := rec{Id: r.Id, Seq: r.Seq, Plain: r.Plain, Counts: map[string]int{}}
+		for k, v := range r.Counts {
+			n.Counts[k] = v
+		}
+		switch op := rapid.IntRange(0, 7).Draw(t, "op"); {
+		case op == 0 && len(recs) > 1:
+			classes["cli:second_step:record_dropped"] = true
+			continue
+		case op <= 3:
+			for _, k := range sortedKeys(n.Counts) {
+				c := n.Counts[k]
+				n.Counts[k] = rapid.SampledFrom([]int{1, c + 1, 5*c + 1, max(1, c/4), 100001}).Draw(t, "newcount")
+			}
+			classes["cli:second_step:counts_changed"] = true
+		case op == 4 && !n.Plain:
+			ks := sortedKeys(n.Counts)
+			if len(ks) > 1 && rapid.Bool().Draw(t, "remove_sample") {
+				delete(n.Counts, ks[rapid.IntRange(0, len(ks)-1).Draw(t, "which")])
+				classes["cli:second_step:sample_removed"] = true
+			} else {
+				n.Counts[rapid.SampledFrom(sampleNames).Draw(t, "new_sample")] = rapid.SampledFrom([]int{1, 3, 50, 5000}).Draw(t, "count")
+				classes["cli:second_step:sample_added_or_recounted"] = true
+			}
+		}
+		out = append(out, n)
+	}
+	if len(out) == 0 {
+		out = append(out, recs[0])
+	}
+	for k := rapid.IntRange(0, 3).Draw(t, "new_records"); k > 0; k-- {
+		p := out[rapid.IntRange(0, len(out)-1).Draw(t, "parent")]
+		s, _ := oneVariant(t, p.Seq, 0)
+		if len(s) == 0 || seen[s] {
+			continue
+		}
+		seen[s] = true
+		n := rec{Id: fmt.Sprintf("n%d", k), Seq: s, Counts: map[string]int{}}
+		for _, sname := range sortedKeys(p.Counts) {
+			n.Counts[sname] = rapid.SampledFrom([]int{1, 2, 20, 200000}).Draw(t, "count")
+		}
+		if len(n.Counts) == 1 && n.Counts["NA"] > 0 {
+			n.Plain = true // "NA" is the name given to records without sample, not a sample of a merged_sample map
+		}
+		out = append(out, n)
+		classes["cli:second_step:record_added"] = true
+	}
+	return out, keysOf(classes)
 }
